@@ -42,7 +42,7 @@ func gen(t *rapid.T) Case {
 	mws := func(max int) []int {
 		return rapid.SliceOfN(rapid.IntRange(0, 7), 0, max).Draw(t, "mws")
 	}
-	for i, n := 0, rapid.IntRange(1, 20).Draw(t, "nsteps"); i < n; i++ {
+	for i, n := 0, rapid.IntRange(1, rig.Up(20)).Draw(t, "nsteps"); i < n; i++ {
 		var s Step
 		switch k := rapid.IntRange(0, 19).Draw(t, "kind"); {
 		case k < 4:
